@@ -200,7 +200,7 @@ def balanced_inward(source: str, pos: int) -> list:
                 p = pending_property[0]
                 if p.start <= pos <= end:
                     # Direct hit into property, no need to look further
-                    push(result, (p.start, delimiter + 1))
+                    push(result, (p.start, delimiter + 1 if delimiter != -1 else end))
                     push(result, (start, end))
                     release_pending()
                     return False
